@@ -16,37 +16,56 @@ Inductive uev :=
 | UNew (u : N)        (* a writer is created: updater u starts from what meta.json holds (the lock is free: the previous writer is gone) *)
 | UCommit (u : N)     (* writer u commits: one more generation, published *)
 | USave (u : N)       (* updater u runs a save_metas of a non-commit task (end of a merge): republishes ITS view *)
-| UGone (u : N) (by_rollback : bool).   (* writer u is dropped / rolls back (its updater is replaced) *)
+| UGone (u : N) (by_rollback : bool)    (* writer u is dropped / rolls back (its updater is replaced) *)
+| UStall (u : N)      (* updater u enters save_metas, finds itself alive, and stalls before the write (a slow directory sync) *)
+| UResume (u : N).    (* the stalled save of u performs its write *)
 
 Record upd := { u_id : N; u_alive : bool; u_view : N }.
-Record ust := { us_meta : N; us_updaters : list upd; us_writer : option N }.
-Definition ust0 : ust := {| us_meta := 0; us_updaters := []; us_writer := None |}.
+Record ust := { us_meta : N; us_updaters : list upd; us_writer : option N; us_inflight : list N }.
+Definition ust0 : ust := {| us_meta := 0; us_updaters := []; us_writer := None; us_inflight := [] |}.
+Definition umem (u : N) (l : list N) : bool := existsb (N.eqb u) l.
+Definition udrop (u : N) (l : list N) : list N := filter (fun x => negb (N.eqb u x)) l.
 
 Fixpoint ufind (u : N) (l : list upd) : option upd :=
   match l with [] => None | x :: r => if N.eqb (u_id x) u then Some x else ufind u r end.
 (* updating an entry = prepending a newer one (ufind returns the first match) *)
 Definition uset (x : upd) (l : list upd) : list upd := x :: l.
 
-Definition ustep_gen (drop_kills rollback_kills save_checks : bool) (s : ust) (e : uev) : ust :=
+(* `locked`: save_metas holds a lock from its liveness check to the write and kill() takes the same lock -- killing waits
+   for a save in flight (which then still writes the live view) and no write happens afterwards *)
+Definition ustep_gen (drop_kills rollback_kills save_checks locked : bool) (s : ust) (e : uev) : ust :=
   match e with
   | UNew u =>
       match us_writer s, ufind u (us_updaters s) with
-      | None, None => {| us_meta := us_meta s; us_updaters := {| u_id := u; u_alive := true; u_view := us_meta s |} :: us_updaters s; us_writer := Some u |}
-      | _, _ => s                                            (* LockBusy, or the id is not fresh *)
+      | None, None => {| us_meta := us_meta s; us_updaters := {| u_id := u; u_alive := true; u_view := us_meta s |} :: us_updaters s; us_writer := Some u; us_inflight := us_inflight s |}
+      | _, _ => s
       end
   | UCommit u =>
       match us_writer s, ufind u (us_updaters s) with
       | Some w, Some x =>
-          if N.eqb w u then
+          if N.eqb w u && negb (umem u (us_inflight s)) then       (* one updater thread: a commit's save runs after the stalled one *)
             let v := u_view x + 1 in
-            {| us_meta := v; us_updaters := uset {| u_id := u; u_alive := u_alive x; u_view := v |} (us_updaters s); us_writer := us_writer s |}
+            {| us_meta := v; us_updaters := uset {| u_id := u; u_alive := u_alive x; u_view := v |} (us_updaters s); us_writer := us_writer s; us_inflight := us_inflight s |}
           else s
       | _, _ => s
       end
   | USave u =>
       match ufind u (us_updaters s) with
-      | Some x => if save_checks && negb (u_alive x) then s
-                  else {| us_meta := u_view x; us_updaters := us_updaters s; us_writer := us_writer s |}
+      | Some x => if (save_checks && negb (u_alive x)) || umem u (us_inflight s) then s
+                  else {| us_meta := u_view x; us_updaters := us_updaters s; us_writer := us_writer s; us_inflight := us_inflight s |}
+      | None => s
+      end
+  | UStall u =>
+      match ufind u (us_updaters s) with
+      | Some x => if (save_checks && negb (u_alive x)) || umem u (us_inflight s) then s
+                  else {| us_meta := us_meta s; us_updaters := us_updaters s; us_writer := us_writer s; us_inflight := u :: us_inflight s |}
+      | None => s
+      end
+  | UResume u =>
+      match ufind u (us_updaters s) with
+      | Some x => if umem u (us_inflight s)
+                  then {| us_meta := u_view x; us_updaters := us_updaters s; us_writer := us_writer s; us_inflight := udrop u (us_inflight s) |}
+                  else s
       | None => s
       end
   | UGone u by_rollback =>
@@ -54,19 +73,18 @@ Definition ustep_gen (drop_kills rollback_kills save_checks : bool) (s : ust) (e
       | Some w, Some x =>
           if N.eqb w u then
             let kills := if by_rollback then rollback_kills else drop_kills in
-            {| us_meta := us_meta s;
+            let flush := kills && locked && umem u (us_inflight s) in      (* kill() waits for the save in flight *)
+            {| us_meta := if flush then u_view x else us_meta s;
                us_updaters := uset {| u_id := u; u_alive := if kills then false else u_alive x; u_view := u_view x |} (us_updaters s);
-               us_writer := None |}
+               us_writer := None;
+               us_inflight := if flush then udrop u (us_inflight s) else us_inflight s |}
           else s
       | _, _ => s
       end
   end.
 
-Definition u_flags : bool * bool * bool :=
-  (N.eqb DROP_KILLS_UPDATER 1, N.eqb ROLLBACK_KILLS_UPDATER 1, N.eqb SAVE_METAS_CHECKS_ALIVE 1).
-Definition ustep (s : ust) (e : uev) : ust := let '(a, b, c) := u_flags in ustep_gen a b c s e.
-Definition urun_gen (a b c : bool) (evs : list uev) : ust := fold_left (ustep_gen a b c) evs ust0.
+Definition u_flags : bool * bool * bool * bool :=
+  (N.eqb DROP_KILLS_UPDATER 1, N.eqb ROLLBACK_KILLS_UPDATER 1, N.eqb SAVE_METAS_CHECKS_ALIVE 1, N.eqb SAVE_METAS_LOCKED_AGAINST_KILL 1).
+Definition ustep (s : ust) (e : uev) : ust := let '(a, b, c, d) := u_flags in ustep_gen a b c d s e.
+Definition urun_gen (a b c d : bool) (evs : list uev) : ust := fold_left (ustep_gen a b c d) evs ust0.
 
-(* the generations meta.json went through, newest first *)
-Fixpoint umetas_gen (a b c : bool) (s : ust) (evs : list uev) : list N :=
-  match evs with [] => [us_meta s] | e :: r => umetas_gen a b c (ustep_gen a b c s e) r ++ [us_meta s] end.
